@@ -120,6 +120,17 @@ pub async fn run_suite(seed: u64, cases: usize) -> String {
         if mine > cfg.max_inflight as i64 {
           fails.push((case, format!("C14: [inflight-exceeded] connection {k} has {mine} requests executing at once with max_inflight_requests={}", cfg.max_inflight)));
         }
+        // a client that stays within the advertised limit must never be cut off: slots of finished requests are free again
+        let already = live.get(&k).map(|v| v.1).unwrap_or(0);
+        if eof && already + n <= cfg.max_inflight {
+          for tag in ["C14", "C13", "C12"] {
+            fails.push((case, format!(
+              "{tag}: [slot-leak] connection {k} had {already} requests executing and pipelined {n} more (max_inflight_requests={}), yet the server closed it ({} ERROR frames): in-flight slots of finished requests were not given back",
+              cfg.max_inflight,
+              errs.len()
+            )));
+          }
+        }
         if eof {
           live.remove(&k);
         } else {
